@@ -339,6 +339,11 @@ def showRows (M : List (List Nat)) : String :=
   let rows := M.filter (fun r => !r.isEmpty)
   if rows.isEmpty then "-" else ";".intercalate (rows.map fun r => ",".intercalate (r.map toString))
 
+/-- flattened `row,col` pairs -/
+def natPairs : List Nat → List (Nat × Nat)
+  | r :: c :: rest => (r, c) :: natPairs rest
+  | _ => []
+
 def sortNat (l : List Nat) : List Nat := (l.toArray.qsort (· < ·)).toList
 
 def run (op : String) (h w extra : Nat) (ops : List Op) (args : List String) : String :=
@@ -351,6 +356,17 @@ def run (op : String) (h w extra : Nat) (ops : List Op) (args : List String) : S
     -- the extents of a window without cells are not part of the observable behaviour that is compared
     if sh.height * sh.width == 0 then s!"empty {if sh.isEmpty then 1 else 0}"
     else s!"{sh.height} {sh.width} {if sh.isEmpty then 1 else 0} {joinC cells}"
+  | "probe", [ps] =>
+    -- `get` at caller-chosen (far away) positions: flattened `row,col` pairs
+    match Proto.natList? ps with
+    | none => "bad-op"
+    | some l =>
+      joinC ((natPairs l).map fun p => showCell (get sh data p.1 p.2))
+  | "probemut", [ps] =>
+    match Proto.natList? ps with
+    | none => "bad-op"
+    | some l =>
+      joinC ((natPairs l).map fun p => showCell (getMut sh data p.1 p.2))
   | "gridmut", [] =>
     let cells := (List.range (sh.height + 2)).flatMap fun r =>
       (List.range (sh.width + 2)).map fun c => showCell (getMut sh data r c)
